@@ -505,6 +505,29 @@ pub fn c19(cx: &RunCtx) {
     cx.assume("round trips use the Display form of every finite Ok result of the depth<=2 tree explorations of C05/C06/C07 and of complex trees; i64::MIN is excepted as the statement says");
     let inputs = literal_inputs(if cx.tier == Tier::Quick { 6 } else { 8 });
     c19_literals(cx, &inputs);
+    // the same literal shapes inside expressions: what follows or precedes a literal must not change how it is read
+    {
+        let shapes = ["5", "5.", ".5", "0.5", "007", "05.50", "5.0", "12.25", "9007199254740993", "0.1", "1.10", "100", "0", "0.", ".0", "00", "1000000.000001"];
+        let contexts = ["{}+1", "1+{}", "({})", "-{}", "{}*2", "2*{}", "{}/4", "{}^2", "2^{}", "{}(2)", "(2){}", "abs({})", "pow({},2)", "pow(2,{})", "{}!", "{}²", "{}-{}", "min({},1)", "{}°", "{}%3"];
+        let mut list: Vec<String> = Vec::new();
+        for sh in shapes {
+            for c in contexts {
+                list.push(c.replace("{}", sh));
+            }
+        }
+        let kinds = [Kind::Value, Kind::WellFormedErr, Kind::MalformedOk, Kind::MustErrOk];
+        crate::fam::run_list::<F64>(cx, "E-LIT literal shapes in context", &list, &[F64::default_at()], &kinds);
+        crate::fam::run_list::<I64>(cx, "E-LIT literal shapes in context", &list, &[I64::default_at()], &kinds);
+        crate::fam::run_list::<Dec>(cx, "E-LIT literal shapes in context", &list, &[Dec::default_at()], &kinds);
+        crate::fam::run_list::<Num>(cx, "E-LIT literal shapes in context", &list, &[Num::default_at()], &kinds);
+        let mut clist = list.clone();
+        for sh in shapes {
+            for c in ["{}i+1", "1+{}i", "({}i)", "-{}i", "{}i*2", "2*{}i", "{}i(2)", "abs({}i)", "{}i*{}i", "{}i²"] {
+                clist.push(c.replace("{}", sh));
+            }
+        }
+        crate::fam::run_list::<Cpx>(cx, "E-LIT literal shapes in context", &clist, &[Cpx::default_at()], &kinds);
+    }
     // round trips
     let none: [Kind; 0] = [];
     use BinOp::*;
